@@ -335,6 +335,10 @@ Definition dynamic_link_ok (img : list Z) (s : image_spec) (link : Z) : bool :=
   | None => false
   end.
 
+(* the SysV hash table: 32-bit words, 64-bit entries for ELF64 Alpha / s390x *)
+Definition spec_hash_layout (s : image_spec) : layout :=
+  if hash_is_wide (i_is64 s) (exp_machine s) then Elf_Hash_wide (i_le s) else spec_Elf_Hash (i_le s).
+
 Definition req_ok (img : list Z) (s : image_spec) (h : shdr_spec) (r : req) : bool :=
   match r with
   | RNone => true
@@ -346,7 +350,7 @@ Definition req_ok (img : list Z) (s : image_spec) (h : shdr_spec) (r : req) : bo
   | RRelr => sh_entsize h =? (if i_is64 s then 8 else 4)
   | RDynamic => dynamic_link_ok img s (sh_link h)
   | RAttr => (sh_offset h <? zlenT img) && at_ img (sh_offset h) [65]
-  | RHash => symtab_link_ok img s (sh_link h) && readable img (sh_offset h) (spec_Elf_Hash (i_le s))
+  | RHash => symtab_link_ok img s (sh_link h) && readable img (sh_offset h) (spec_hash_layout s)
   | RGnuHash => symtab_link_ok img s (sh_link h) &&
                 readable img (sh_offset h) (spec_Gnu_Hash (i_le s) (i_is64 s))
   end.
